@@ -245,6 +245,7 @@ def _isparam(f, place, idx):
 def run(check):
     check.rule("TRAV-COVER", "every override of the literal collector visits all children that can contain a literal on every path, except require(<lit>,..) / new RegExp(<lit>,..) guarded by exactly the four documented conjuncts")
     check.guarded("TRAV-COVER", lambda c: T.run_cover(c, "TRAV-COVER", LV, {T.LIT}, [_exclusion("require", "Call"), _exclusion("RegExp", "New")], {"visit_lit", "visit_expr"}))
+    check.guarded("DEFAULT-VISITOR", lambda c: T.rule_default_visitor(c, "Visit", {T.LIT}))
     check.guarded("BOOLDISCARD", rule_booldiscard)
     check.guarded("WINDOW", rule_window)
     check.guarded("DEDUPE-KEY", rule_dedupe)
